@@ -189,6 +189,13 @@ def corpus():
     out.append(case(CT_MP, part(CD + b'name="f\x00"; filename="x\x00.bin"', b'DATA', b'\r\nContent-Type: a/b') + END,
                     access='POST'))
     out.append(case(CT_MP, part(CD + b'name="t"', b'v', b'\r\nX-Custom: a\x00b') + END))
+    # ---- extended parameters filename*= / name*= (RFC 5987), well-formed and malformed, on uploads and text parts
+    for sp in STAR_PARAMS:
+        out.append(case(CT_MP, part(CD + b'name="f"; filename="x.bin"; ' + sp, b'DATA', b'\r\nContent-Type: a/b') + END,
+                        access='files'))
+    for sp in STAR_PARAMS[3:9]:
+        out.append(case(CT_MP, part(CD + b'name="f"; ' + sp, b'DATA') + END, access='POST'))
+        out.append(case(CT_MP, part(CD + sp + b'; name="f"', b'DATA') + END, access='forms'))
     # ---- the delimiter search across scan blocks and received chunks: value lengths 0..3*len(token) (one alignment in
     # len(token) puts the CR of the next delimiter at the end of a block), and a buffer boundary at every offset of a
     # small two-part body (max_memfile_size IS the chunking) — seed C12-17
@@ -276,6 +283,12 @@ EXTRA_HEADERS = [b'Content-Transfer-Encoding: binary', b'Content-Transfer-Encodi
                  b'X-Custom: a\x00b', b'Content-Type: text/\x00plain', b'Content-Type: \x00', b'X-Ctl: \x01\x02\x08\x0e\x1b\x1f\x7f',
                  b'Content-Transfer-Encoding: bin\x00ary', b'X\x00Y: v', b'Content-Type: text/plain\x00; charset=utf-8',
                  b'X-Tab:\ta\tb', b'Content-Length: 4\x00']
+# RFC 5987 / 6266 extended parameters in Content-Disposition, well-formed and malformed
+STAR_PARAMS = [b"filename*=UTF-8''%e2%82%ac.txt", b"filename*=utf-8'en'a%20b.txt", b"filename*=iso-8859-1''%e9.txt",
+               b'filename*=%e2%82%ac.txt', b"filename*=klingon''a%ff.txt", b"filename*=UTF-8'%e2", b"filename*=''", b'filename*=',
+               b"filename*=UTF-8''%ff%fe", b"filename*=UTF-8''%zz", b"filename*=hex''61", b"filename*='", b"filename*=a'b",
+               b"filename*=\"UTF-8''x\"", b"name*=UTF-8''n%c3%a9", b"name*=x", b"FILENAME*=utf-8''A", b"filename*0=a; filename*1=b",
+               b"filename*=UTF-8''" + b'%41' * 60, b"filename*=utf-16''%ff%fe%41%00"]
 
 
 def part_headers(rng):
@@ -304,8 +317,18 @@ def good_multipart(rng):
             before, after = part_headers(rng)
             val = rng.choice([b'v', b'v' * 25, b'\xc3\xa9', b'\xff\xfe', b'aGk=', b'', b'\r\n-'])
             kind = rng.random()
+            star = b''
+            if rng.random() < 0.2:
+                star = b'; ' + rng.choice(STAR_PARAMS)
+                if rng.random() < 0.3:
+                    star = star + b'; ' + rng.choice(STAR_PARAMS)
+            after = star + after if rng.random() < 0.0 else after
             if kind < 0.5:
-                disp = CD + b'name="' + nm + b'"'
+                disp = CD + b'name="' + nm + b'"' + star
+            elif star and rng.random() < 0.5:
+                disp = CD + b'name="' + nm + b'"; filename="f.txt"' + star
+            elif star:
+                disp = CD + star[2:] + b'; name="' + nm + b'"'
             else:
                 disp = CD + b'name="' + nm + b'"; filename="' + rng.choice([b'f.txt', b'f.txt', b'a\x00b', b'']) + b'"'
             parts.append(b'--XyZ\r\n' + before + disp + after + b'\r\n\r\n' + val + b'\r\n')
